@@ -331,6 +331,11 @@ mod stream_type_ids {
     pub const WEBTRANSPORT_STREAM: VarInt = VarInt::from_u32(0x54);
 }
 
+/// Verification harnesses with access to this module's private items (only under `cargo kani`).
+#[cfg(kani)]
+#[path = "/verif/kani/proto/in_stream_header.rs"]
+pub(crate) mod verif_kani;
+
 #[cfg(test)]
 mod tests {
     use super::*;
